@@ -288,7 +288,7 @@ def run_c16(ck):
     rng = random.Random(ck.seed + 16)
     n = 2500 if quick else 60000
     cases = [genasm.gen_cond_program(rng) for _ in range(n)]
-    jobs = [{"mode": "drive", "files": {"main.asm": genasm.render_items(P["items"])},
+    jobs = [{"mode": "drive", "files": {"main.asm": genasm.render_fns(P) + genasm.render_items(P["items"])},
              "args": ["customasm", "main.asm", "-q", "-f", "binary", "-o", "out.bin"] + argv,
              "want": {"messages": False, "spans": False, "events": False}} for P, argv in cases]
     results = common.run_jobs(jobs, ck.wd + "/jobs")
